@@ -25,7 +25,12 @@
 (***************************************************************************)
 EXTENDS Naturals, Sequences, FiniteSets, TLC
 
-Lower(c) == IF c \in 65..90 THEN c + 32 ELSE c
+\* simple case folding: ASCII, the Latin-1 letters (192..222 except the multiplication sign) and the
+\* even/odd pairs of Latin Extended-A that occur in the generated vocabulary
+Lower(c) == IF c \in 65..90 THEN c + 32
+            ELSE IF c \in 192..222 /\ c # 215 THEN c + 32
+            ELSE IF c \in {321, 377, 379, 381, 352} THEN c + 1
+            ELSE c
 LowerS(s) == [i \in 1..Len(s) |-> Lower(s[i])]
 IsBlank(c) == c \in {32, 9, 10, 11, 12, 13}
 
